@@ -250,11 +250,34 @@ func TestGvcBoundedVectors(t *testing.T) {
 			}
 		})
 	}
+	// GM/T 0003.3 6.1 step A4/B3: x~ = 2^w + (x mod 2^w), w = 127, against math/big on x-coordinates of every byte length
+	// (short values are rare among random ephemeral keys)
+	guard("kexhat:byte lengths", func() {
+		w := new(big.Int).Lsh(big.NewInt(1), 127)
+		for n := 0; n <= 32; n++ {
+			for k := 0; k < 8; k++ {
+				b := make([]byte, n)
+				rng.Read(b)
+				if n > 0 && k%2 == 0 {
+					b[0] |= 0x80 // full length
+				}
+				if n >= 16 && k%4 == 1 {
+					b[n-16] |= 0x80 // the bit just above 2^127 set
+				}
+				x := new(big.Int).SetBytes(b)
+				want := new(big.Int).Add(w, new(big.Int).Mod(x, w))
+				if got := keXHat(new(big.Int).Set(x)); got == nil || got.Cmp(want) != 0 {
+					fail(fmt.Sprintf("kexhat:x=%x", x))
+					return
+				}
+			}
+		}
+	})
 	guard("encrypt:empty plaintext terminates", func() {
 		_, _ = Encrypt(&priv.PublicKey, nil, nonceReader(k), C1C3C2)
 	})
 	out, _ := json.Marshal(map[string]interface{}{"cases": cases, "failures": len(failing), "failing": failing,
-		"bound": fmt.Sprintf("GM/T 0003.5-2012 A.2 signature example (public key, ZA, e, r, s with the standard's nonce); %d random (key, message, id, nonce) tuples: signing equations recomputed with math/big, completeness, rejection of altered message / id / r / s / key / out-of-range values / non-strict DER; encryption round trips in both orderings with ASN.1 form and rejection of altered, short and foreign ciphertexts ; key exchange between random parties: equal keys of the requested length, cross-matching confirmation values, error for an ephemeral point off the curve (seed %d)", rounds, seed)})
+		"bound": fmt.Sprintf("GM/T 0003.5-2012 A.2 signature example (public key, ZA, e, r, s with the standard's nonce); %d random (key, message, id, nonce) tuples: signing equations recomputed with math/big, completeness, rejection of altered message / id / r / s / key / out-of-range values / non-strict DER; encryption round trips in both orderings with ASN.1 form and rejection of altered, short and foreign ciphertexts ; key exchange between random parties: equal keys of the requested length, cross-matching confirmation values, error for an ephemeral point off the curve; keXHat against 2^127 + (x mod 2^127) for x of every byte length 0..32 (seed %d)", rounds, seed)})
 	fmt.Println("GVCBOUNDED " + string(out))
 	if len(failing) > 0 {
 		t.Fail()
